@@ -68,7 +68,7 @@ Definition run_k40 (args : list sx) : sx :=
   match args with
   | kbs :: roots :: worlds :: data :: ops :: _ =>
       let k := dlist dfobj kbs in
-      if negb (wf_fkbb k) then L [A (-996)] else
+      if negb (wf_fkbb k && shape_okb k) then L [A (-996)] else
       let roots := dlist dnat roots in
       let ws := dlist dbnd worlds in
       let s0 := FS (fun _ => []) (fun i => nth i ws unknown) in
